@@ -101,6 +101,20 @@ def run_to(W, cfg):
         W.ob_true('to(own flux unit, waveunit): waveunit recorded', t2.waveunit == cfg['to'])
         W.ob('to(own flux unit, waveunit) = to(waveunit): grid', t2.wave, two.wave)
         W.ob('to(own flux unit, waveunit) = to(waveunit): values', t2.value, two.value)
+        # a spectrum whose wavelength unit was set through the attribute or through resample(..., waveunit=) converts its flux like a fresh
+        # spectrum in that state (the conversion depends on the wavelengths and their current unit only)
+        rel = mk()
+        rel.waveunit = cfg['to']
+        fresh = R.Spectrum(W.array(list(w)), W.array(list(v)), waveunit=cfg['to'], valueunit=cfg['valueunit'])
+        rel.to(cfg['flux_to'])
+        fresh.to(cfg['flux_to'])
+        W.ob('flux conversion after the waveunit attribute was set = that of a fresh spectrum in the same state', rel.value, fresh.value)
+        rs = mk()
+        rs.resample(W.array([x * fac for x in w]), waveunit=cfg['to'])
+        fresh2 = R.Spectrum(rs.wave.copy(), rs.value.copy(), waveunit=cfg['to'], valueunit=cfg['valueunit'])
+        rs.to(cfg['flux_to'])
+        fresh2.to(cfg['flux_to'])
+        W.ob('flux conversion after resample(..., waveunit=) = that of a fresh spectrum in the same state', rs.value, fresh2.value)
 
 
 def cfg_planck(tier, seed):
